@@ -2,12 +2,14 @@
    A. passes/_pass_infra.py : PassBase.__call__ (114-166), Sequential (216-262), PassManager.call (306-328),
       functionalize / _FunctionalPassWrapper (331-353), over an abstract per-object model state St and
       arbitrary primitive passes (effect on the state + reported flag + scripted misbehaviour).
-   B. passes/common/_c_api_utils.py : call_onnx_api (23-88) — strip initializers into inputs,
-      serialize (OUTSIDE the try, as written), call, finally: restore.
+   B. passes/common/_c_api_utils.py : call_onnx_api — strip initializers into inputs; try: serialize, call;
+      finally: rebuild graph.initializers in the saved order with the saved tensors/shapes/types, cut the inputs.
    C. the `modified` computation, as written, of ClearMetadataAndDocStringPass, RemoveUnusedNodesPass
       (flat graphs: node sweep, trailing-None trimming, initializer removal), TopologicalSortPass
       (flag computation over an abstract sort), Add/RemoveInitializers(To/From)InputsPass.
-   Everything here is tied to /repo by the correspondence check in harness/props/c14.py. *)
+   Everything here is tied to /repo by the correspondence check in harness/props/c14.py.
+   The definitions named *_before_fix describe the code before the fix commits 0346f88, fce58f3, 16a8fe8,
+   733a9c1 (history: their refuting witnesses are kept as lemmas in Proofs*.v and as corpus cases). *)
 From Coq Require Import ZArith List Bool Lia Arith PeanoNat.
 From IRV Require Import Base.Exn Gen.C14Gen.
 Import ListNotations.
@@ -200,7 +202,7 @@ Definition infra_agree (case : pterm Z * Z * (bool * bool * xres (nat * bool) * 
   && xres_eqb (fun a b => Nat.eqb (fst a) (fst b) && Bool.eqb (snd a) (snd b)) r r'
   && list_eqb Z.eqb d d'.
 
-(* ====================================================================== B. call_onnx_api *)
+(* ====================================================================== B. call_onnx_api_before_fix *)
 
 Record tensor : Type := { t_id : Z; t_nbytes : Z; t_shape : Z; t_dtype : Z; t_raises : bool }.
 Record value : Type := { v_const : option tensor; v_shape : option Z; v_dtype : option Z }.
@@ -242,16 +244,26 @@ Definition strip_step (g : gst) (v : positive) : gst :=
 
 Definition strip (g : gst) : gst := fold_left strip_step (g_inits g) g.
 
-(* finally: const_value back from the saved dict, register_initializer / initializers.add (a dict:
-   an existing key keeps its position, a new key goes to the end) *)
+(* finally (current code): graph.initializers.clear(); then for every saved initializer, in the saved order:
+   const_value, shape and type back from the saved copies, initializers.add (a fresh key goes to the end) *)
 Definition restore_step (g0 : gst) (g : gst) (v : positive) : gst :=
+  {| g_inputs := g_inputs g; g_inits := g_inits g ++ [v]; g_vals := vupd (g_vals g) v (g_vals g0 v) |}.
+
+Definition restore (g0 g : gst) : gst :=
+  let g1 := fold_left (restore_step g0) (g_inits g0)
+                      {| g_inputs := g_inputs g; g_inits := []; g_vals := g_vals g |} in
+  {| g_inputs := firstn (length (g_inputs g0)) (g_inputs g1); g_inits := g_inits g1; g_vals := g_vals g1 |}.
+
+(* before fix 0346f88: const_value back, register_initializer / initializers.add on the dict as it is (an existing
+   key keeps its position, a new key goes to the end); shape/type not restored *)
+Definition restore_step_before_fix (g0 : gst) (g : gst) (v : positive) : gst :=
   let x := g_vals g v in
   {| g_inputs := g_inputs g;
      g_inits := if pmem v (g_inits g) then g_inits g else g_inits g ++ [v];
      g_vals := vupd (g_vals g) v {| v_const := v_const (g_vals g0 v); v_shape := v_shape x; v_dtype := v_dtype x |} |}.
 
-Definition restore (g0 g : gst) : gst :=
-  let g1 := fold_left (restore_step g0) (g_inits g0) g in
+Definition restore_before_fix (g0 g : gst) : gst :=
+  let g1 := fold_left (restore_step_before_fix g0) (g_inits g0) g in
   {| g_inputs := firstn (length (g_inputs g0)) (g_inputs g1); g_inits := g_inits g1; g_vals := g_vals g1 |}.
 
 Section Api.
@@ -259,26 +271,20 @@ Section Api.
   Variable serialize : gst -> res Proto.      (* ir.serde.serialize_model: may raise *)
   Variable func : Proto -> res R.             (* the ONNX C API call: may raise *)
 
-  (* the code as written: serialization happens before the try *)
+  (* current code: serialization and the call are inside the try, finally always runs *)
   Definition call_onnx_api (g : gst) : gst * res R :=
     let g1 := strip g in
     match serialize g1 with
-    | Raise e => (g1, Raise e)
+    | Raise e => (restore g g1, Raise e)
     | Ok p => (restore g g1, func p)
     end.
 
-  (* the proposed repair (proposed_fixes/C14-call-onnx-api.diff): remember shape/dtype, serialize inside
-     the try, and in finally rebuild the initializer dict in its original order *)
-  Definition restore_fixed (g0 g : gst) : gst :=
-    {| g_inputs := firstn (length (g_inputs g0)) (g_inputs g);
-       g_inits := g_inits g0;
-       g_vals := fun k => if pmem k (g_inits g0) then g_vals g0 k else g_vals g k |}.
-
-  Definition call_onnx_api_fixed (g : gst) : gst * res R :=
+  (* before fix 0346f88: serialization happened before the try *)
+  Definition call_onnx_api_before_fix (g : gst) : gst * res R :=
     let g1 := strip g in
     match serialize g1 with
-    | Raise e => (restore_fixed g g1, Raise e)
-    | Ok p => (restore_fixed g g1, func p)
+    | Raise e => (g1, Raise e)
+    | Ok p => (restore_before_fix g g1, func p)
     end.
 End Api.
 
@@ -316,23 +322,13 @@ Definition api_agree
   Bool.eqb oraised (negb (is_ok r))
   && list_eqb Pos.eqb oins ins' && list_eqb Pos.eqb oinits inits' && list_eqb vobs_eqb ovals vals'.
 
-Definition api_agree_fixed
-  (case : list positive * list positive * list (positive * value) * bool
-          * (bool * list positive * list positive * list (option Z * option Z * option Z))) : bool :=
-  let '(ins, inits, tbl, fr, (oraised, oins, oinits, ovals)) := case in
-  let g := {| g_inputs := ins; g_inits := inits; g_vals := mk_vals tbl |} in
-  let '(g', r) := call_onnx_api_fixed unit unit lazy_serialize (fun _ => if fr then Raise RuntimeError else Ok tt) g in
-  let '(ins', inits', vals') := gst_obs (map fst tbl) g' in
-  Bool.eqb oraised (negb (is_ok r))
-  && list_eqb Pos.eqb oins ins' && list_eqb Pos.eqb oinits inits' && list_eqb vobs_eqb ovals vals'.
-
 (* ====================================================================== C. passes and their flags *)
 
 (* ---- ClearMetadataAndDocStringPass.  A model is the list of graph-likes the pass visits (main graph and
    every subgraph, then every function and its subgraphs); a graph-like has (metadata?, doc?) and nodes (metadata?, doc?). *)
 Record cgraph : Type := { cg_meta : bool; cg_doc : bool; cg_nodes : list (bool * bool) }.
 
-Definition clear_graph (g : cgraph) : cgraph * bool :=
+Definition clear_graph_before_fix (g : cgraph) : cgraph * bool :=
   match cg_nodes g with
   | [] => (g, false)          (* a graph-like without nodes is never looked at *)
   | _ =>
@@ -342,26 +338,26 @@ Definition clear_graph (g : cgraph) : cgraph * bool :=
        existsb fst (cg_nodes g) || dirty)
   end.
 
-Definition clear_pass (m : list cgraph) : list cgraph * bool :=
-  (map (fun g => fst (clear_graph g)) m, existsb (fun g => snd (clear_graph g)) m).
+Definition clear_pass_before_fix (m : list cgraph) : list cgraph * bool :=
+  (map (fun g => fst (clear_graph_before_fix g)) m, existsb (fun g => snd (clear_graph_before_fix g)) m).
 
 Definition cgraph_eqb (a b : cgraph) : bool :=
   Bool.eqb (cg_meta a) (cg_meta b) && Bool.eqb (cg_doc a) (cg_doc b)
   && list_eqb (fun x y => Bool.eqb (fst x) (fst y) && Bool.eqb (snd x) (snd y)) (cg_nodes a) (cg_nodes b).
 
+Definition clear_agree_before_fix (case : list cgraph * (list cgraph * bool)) : bool :=
+  let '(m, (m', f)) := case in
+  let '(pm, pf) := clear_pass_before_fix m in list_eqb cgraph_eqb pm m' && Bool.eqb pf f.
+
+(* repaired flag (proposed_fixes/C14-clear-docstring-flag.diff): a cleared node doc string counts *)
+Definition clear_graph (g : cgraph) : cgraph * bool :=
+  (fst (clear_graph_before_fix g),
+   match cg_nodes g with [] => false | _ => existsb (fun n => fst n || snd n) (cg_nodes g) || cg_meta g || cg_doc g end).
+Definition clear_pass (m : list cgraph) : list cgraph * bool :=
+  (map (fun g => fst (clear_graph g)) m, existsb (fun g => snd (clear_graph g)) m).
 Definition clear_agree (case : list cgraph * (list cgraph * bool)) : bool :=
   let '(m, (m', f)) := case in
   let '(pm, pf) := clear_pass m in list_eqb cgraph_eqb pm m' && Bool.eqb pf f.
-
-(* repaired flag (proposed_fixes/C14-clear-docstring-flag.diff): a cleared node doc string counts *)
-Definition clear_graph_fixed (g : cgraph) : cgraph * bool :=
-  (fst (clear_graph g),
-   match cg_nodes g with [] => false | _ => existsb (fun n => fst n || snd n) (cg_nodes g) || cg_meta g || cg_doc g end).
-Definition clear_pass_fixed (m : list cgraph) : list cgraph * bool :=
-  (map (fun g => fst (clear_graph_fixed g)) m, existsb (fun g => snd (clear_graph_fixed g)) m).
-Definition clear_agree_fixed (case : list cgraph * (list cgraph * bool)) : bool :=
-  let '(m, (m', f)) := case in
-  let '(pm, pf) := clear_pass_fixed m in list_eqb cgraph_eqb pm m' && Bool.eqb pf f.
 
 (* ---- RemoveUnusedNodesPass on flat graphs (no subgraphs, no opset-dependent optional-output trimming) *)
 Record dnode : Type := { d_id : positive; d_ins : list (option positive); d_outs : list positive }.
@@ -381,6 +377,26 @@ Definition trim (l : list (option positive)) : list (option positive) := rev (dr
 Definition trim_node (n : dnode) : dnode := {| d_id := d_id n; d_ins := trim (d_ins n); d_outs := d_outs n |}.
 
 (* reversed(graph): the nodes after n have been processed (rest'), the nodes before it not yet *)
+Fixpoint sweep_before_fix (outs : list positive) (before : list dnode) (l : list dnode) : list dnode * nat :=
+  match l with
+  | [] => ([], O)
+  | n :: rest =>
+      let '(rest', c) := sweep_before_fix outs (before ++ [n]) rest in
+      let others := before ++ n :: rest' in
+      if forallb (fun o => negb (pmem o outs) && negb (used_in o others)) (d_outs n)
+      then (rest', S c)
+      else (trim_node n :: rest', c)
+  end.
+
+Definition dce_before_fix (g : dgraph) : dgraph * bool :=
+  let '(ns, c) := sweep_before_fix (d_outputs g) [] (d_nodes g) in
+  let keep := fun v => used_in v ns || pmem v (d_outputs g) || pmem v (d_inputs g) in
+  let inits := filter keep (d_inits g) in
+  let c2 := (c + (length (d_inits g) - length inits))%nat in
+  ({| d_nodes := ns; d_outputs := d_outputs g; d_inputs := d_inputs g; d_inits := inits |}, negb (Nat.eqb c2 0)).
+
+(* repaired count (proposed_fixes/C14-dce_before_fix-count-trims.diff): trimming a kept node counts *)
+Definition ins_eqb (a b : list (option positive)) : bool := list_eqb (option_eqb Pos.eqb) a b.
 Fixpoint sweep (outs : list positive) (before : list dnode) (l : list dnode) : list dnode * nat :=
   match l with
   | [] => ([], O)
@@ -389,31 +405,11 @@ Fixpoint sweep (outs : list positive) (before : list dnode) (l : list dnode) : l
       let others := before ++ n :: rest' in
       if forallb (fun o => negb (pmem o outs) && negb (used_in o others)) (d_outs n)
       then (rest', S c)
-      else (trim_node n :: rest', c)
+      else (trim_node n :: rest', if ins_eqb (trim (d_ins n)) (d_ins n) then c else S c)
   end.
 
 Definition dce (g : dgraph) : dgraph * bool :=
   let '(ns, c) := sweep (d_outputs g) [] (d_nodes g) in
-  let keep := fun v => used_in v ns || pmem v (d_outputs g) || pmem v (d_inputs g) in
-  let inits := filter keep (d_inits g) in
-  let c2 := (c + (length (d_inits g) - length inits))%nat in
-  ({| d_nodes := ns; d_outputs := d_outputs g; d_inputs := d_inputs g; d_inits := inits |}, negb (Nat.eqb c2 0)).
-
-(* repaired count (proposed_fixes/C14-dce-count-trims.diff): trimming a kept node counts *)
-Definition ins_eqb (a b : list (option positive)) : bool := list_eqb (option_eqb Pos.eqb) a b.
-Fixpoint sweep_fixed (outs : list positive) (before : list dnode) (l : list dnode) : list dnode * nat :=
-  match l with
-  | [] => ([], O)
-  | n :: rest =>
-      let '(rest', c) := sweep_fixed outs (before ++ [n]) rest in
-      let others := before ++ n :: rest' in
-      if forallb (fun o => negb (pmem o outs) && negb (used_in o others)) (d_outs n)
-      then (rest', S c)
-      else (trim_node n :: rest', if ins_eqb (trim (d_ins n)) (d_ins n) then c else S c)
-  end.
-
-Definition dce_fixed (g : dgraph) : dgraph * bool :=
-  let '(ns, c) := sweep_fixed (d_outputs g) [] (d_nodes g) in
   let keep := fun v => used_in v ns || pmem v (d_outputs g) || pmem v (d_inputs g) in
   let inits := filter keep (d_inits g) in
   let c2 := (c + (length (d_inits g) - length inits))%nat in
@@ -428,11 +424,11 @@ Definition dgraph_eqb (a b : dgraph) : bool :=
   list_eqb dnode_eqb (d_nodes a) (d_nodes b) && list_eqb Pos.eqb (d_outputs a) (d_outputs b)
   && list_eqb Pos.eqb (d_inputs a) (d_inputs b) && list_eqb Pos.eqb (d_inits a) (d_inits b).
 
+Definition dce_agree_before_fix (case : dgraph * (dgraph * bool)) : bool :=
+  let '(g, (g', f)) := case in let '(pg, pf) := dce_before_fix g in dgraph_eqb pg g' && Bool.eqb pf f.
+
 Definition dce_agree (case : dgraph * (dgraph * bool)) : bool :=
   let '(g, (g', f)) := case in let '(pg, pf) := dce g in dgraph_eqb pg g' && Bool.eqb pf f.
-
-Definition dce_agree_fixed (case : dgraph * (dgraph * bool)) : bool :=
-  let '(g, (g', f)) := case in let '(pg, pf) := dce_fixed g in dgraph_eqb pg g' && Bool.eqb pf f.
 
 (* ---- TopologicalSortPass: the flag is computed from the top-level node lists of the main graph and
    the functions only; Graph.sort() (C12) also reorders every subgraph.  sort is abstract. *)
@@ -446,7 +442,7 @@ Fixpoint first_diff (a b : list positive) : bool :=     (* for node, new_node in
 
 Section Topo.
   Variable sort : list positive -> list positive.
-  Definition topo_pass (m : tmodel) : tmodel * bool :=
+  Definition topo_pass_before_fix (m : tmodel) : tmodel * bool :=
     let m' := {| t_main := sort (t_main m); t_funcs := map sort (t_funcs m); t_subs := map sort (t_subs m) |} in
     (m', first_diff (t_main m ++ concat (t_funcs m)) (t_main m' ++ concat (t_funcs m'))).
 End Topo.
@@ -455,17 +451,17 @@ End Topo.
 Definition lists_eqb (a b : list (list positive)) : bool := list_eqb (list_eqb Pos.eqb) a b.
 Definition tmodel_eqb (a b : tmodel) : bool :=
   list_eqb Pos.eqb (t_main a) (t_main b) && lists_eqb (t_funcs a) (t_funcs b) && lists_eqb (t_subs a) (t_subs b).
-Definition topo_pass_fixed (sort : list positive -> list positive) (m : tmodel) : tmodel * bool :=
-  let m' := fst (topo_pass sort m) in (m', negb (tmodel_eqb m m')).
+Definition topo_pass (sort : list positive -> list positive) (m : tmodel) : tmodel * bool :=
+  let m' := fst (topo_pass_before_fix sort m) in (m', negb (tmodel_eqb m m')).
 
 (* correspondence: the observed sorted lists are given; only the flag computation is predicted *)
 Definition topo_case : Type :=
   list positive * list (list positive) * list (list positive)
   * (list positive * list (list positive) * list (list positive)) * bool.
-Definition topo_agree (case : topo_case) : bool :=
+Definition topo_agree_before_fix (case : topo_case) : bool :=
   let '(main, funcs, subs, (smain, sfuncs, ssubs), f) := case in
   Bool.eqb f (first_diff (main ++ concat funcs) (smain ++ concat sfuncs)).
-Definition topo_agree_fixed (case : topo_case) : bool :=
+Definition topo_agree (case : topo_case) : bool :=
   let '(main, funcs, subs, (smain, sfuncs, ssubs), f) := case in
   Bool.eqb f (negb (tmodel_eqb {| t_main := main; t_funcs := funcs; t_subs := subs |}
                                {| t_main := smain; t_funcs := sfuncs; t_subs := ssubs |})).
